@@ -34,6 +34,10 @@ def build_history(hid, cases):
             spec["seclen"] = 512
         if c["mut"] == "len513":
             spec["seclen"] = 513
+        if c["mut"] == "len512mb":
+            spec["seclen"], spec["secmb"] = 512, True
+        if c["mut"] == "len514mb":
+            spec["seclen"], spec["secmb"] = 514, True
         fund[c["ks"]].append(("base", i, spec))
     for ks in ("k0", "k1", "k2"):
         for a in (1, 2, 64, 1024):
@@ -69,7 +73,7 @@ def build_history(hid, cases):
         mut = c["mut"]
         claimed_ks, claimed_amt = c["ks"], c["amt"]
         var = mut
-        if mut in ("len512", "len513"):
+        if mut in ("len512", "len513", "len512mb", "len514mb"):
             var = ""
         if mut == "c:other":
             var = "c:" + spare[(c["ks"], 2 if c["amt"] != 2 else 64)]
